@@ -40,6 +40,35 @@ class Kill(BaseException):
     pass
 
 
+class _InterruptedBatch:
+    """The context manager `Storage.write_batch()` returns, with an interrupt (KeyboardInterrupt-like: a
+    BaseException raised between two operations of the `with` block) delivered before the `at`-th
+    delete/put is queued.  The real context manager's `__exit__` then sees the exception - what it does
+    with the half assembled batch is the storage layer's contract (`transaction=True`: discard)."""
+    def __init__(self, cm, at):
+        self.cm, self.at, self.n = cm, at, 0
+
+    def __enter__(self):
+        self.b = self.cm.__enter__()
+        return self
+
+    def __exit__(self, *exc):
+        return self.cm.__exit__(*exc)
+
+    def _tick(self):
+        if self.n == self.at:
+            raise Kill('interrupt')
+        self.n += 1
+
+    def put(self, k, v):
+        self._tick()
+        self.b.put(k, v)
+
+    def delete(self, k):
+        self._tick()
+        self.b.delete(k)
+
+
 _CTL = [None]
 _MAXROW = [None]
 _orig = {}
@@ -88,6 +117,20 @@ def install_hooks():
     def flush_compaction(self, cursor, write_items, keys_to_delete):
         ctl = _CTL[0]
         items, dels = list(write_items), set(keys_to_delete)
+        if ctl is not None and ctl.interrupt is not None:
+            # an interrupt inside the `with write_batch()` block of this batch
+            nops = len(dels) + len(items)                    # + the state record's put
+            at = {'after_deletes': len(dels), 'before_state': nops,
+                  'first': 0}.get(ctl.interrupt, None)
+            if at is None:
+                at = ctl.interrupt % (nops + 1)
+            ctl.interrupted = (at, len(dels), len(items))
+            store, orig_wb = self.db, self.db.write_batch
+            store.write_batch = lambda: _InterruptedBatch(orig_wb(), at)
+            try:
+                return _orig['fc'](self, cursor, write_items, keys_to_delete)
+            finally:
+                store.write_batch = orig_wb
         r = _orig['fc'](self, cursor, write_items, keys_to_delete)
         if ctl is not None:
             ctl.effects.append(fmt_batch(dels, items, self))
@@ -137,8 +180,10 @@ def script_module():
 
 
 class Ctl:
-    def __init__(self, limit, kill_after, lose_setflush, watch):
+    def __init__(self, limit, kill_after, lose_setflush, watch, interrupt=None):
         self.limit = limit
+        self.interrupt = interrupt
+        self.interrupted = None
         self.kill_after = kill_after
         self.lose_setflush = lose_setflush
         self.watch = list(watch)
@@ -151,12 +196,12 @@ class Ctl:
         self.script_limit = None
 
 
-def run_script(real, limit, kill_after=None, lose_setflush=False, watch=()):
+def run_script(real, limit, kill_after=None, lose_setflush=False, watch=(), interrupt=None):
     """One process running the real `compact_history()` on real.dir, up to its death."""
     real.close_dbs()
     mod = script_module()
     make_env(real.dir, real.reorg_limit)            # the environment the script reads
-    ctl = Ctl(limit, kill_after, lose_setflush, watch)
+    ctl = Ctl(limit, kill_after, lose_setflush, watch, interrupt)
     holder = {}
     base = real.dbmod.DB
 
@@ -170,7 +215,7 @@ def run_script(real, limit, kill_after=None, lose_setflush=False, watch=()):
         run_coro(mod.compact_history())
         status = 'complete'
     except Kill as k:
-        status = 'killed' if k.args[0] == 'batch' else 'lost-setflush'
+        status = {'batch': 'killed', 'interrupt': 'interrupted'}.get(k.args[0], 'lost-setflush')
     except AssertionError:
         status = 'AssertionError'
     except struct.error:
@@ -360,7 +405,26 @@ class Run:
     def plan_kill_each_batch(self, limit, lose_setflush, on_boundary=None, start_each=True):
         """Kill the script after every single batch and resume, until it completes."""
         n = 0
+        irng = random.Random(f'interrupt {limit} {len(self.watch)} {self.nbatches}')
         while True:
+            if irng.random() < 0.4 and limit > 0:
+                # the operator's Ctrl-C arrives while the batch is being assembled: the model's run
+                # of zero batches (the storage layer discards a batch whose block raised)
+                how = irng.choice(['after_deletes', 'after_deletes', 'before_state', 'first', irng.randrange(1 << 20)])
+                status, ctl = run_script(self.real, limit, lose_setflush=lose_setflush, watch=self.watch,
+                                         interrupt=how)
+                if status == 'interrupted':
+                    self.res.bump('script_runs_interrupted_inside_a_batch')
+                    at, nd, ni = ctl.interrupted
+                    self.res.bump('interrupts_after_a_delete_was_queued' if at > 0 and nd else 'interrupts_before_any_delete')
+                    self.emit(f'SCRIPT {limit} 0 {0 if lose_setflush else 1}', 'ok')
+                    self.emit('DUMPH', dumph_disk(self.real), 'dump')
+                    if not self.server_start(f'normal start after an interrupt inside a compaction batch (before operation '
+                                             f'{at} of {nd} deletes + {ni} puts + state; limit {limit})',
+                                             interrupted_at=at, batch_deletes=nd, batch_puts=ni):
+                        return 'violated'
+                elif status not in ('AssertionError', 'error'):
+                    self.res.harness_errors.append(f'interrupted script run ended with status {status}')
             status, ctl = run_script(self.real, limit, kill_after=1, lose_setflush=lose_setflush,
                                      watch=self.watch)
             self.emit(f'SCRIPT {limit} 1 {0 if lose_setflush else 1}', 'ok')
